@@ -114,11 +114,13 @@ EndChecks ==
       e1 == IF k # Len(Ins) + 1 THEN <<V("C02.tiling", "log consumed", Len(Ins) + 1 - k)>> ELSE <<>>
       e2 == IF s.off # Len(Code) THEN <<V("C02.tiling", Len(Code), s.off)>> ELSE <<>>
       e3 == IF logged # labs THEN <<V("C04.findlabels", labs, logged)>> ELSE <<>>
+      \* the package-level findlabels(code, opc) (a second observable, present in xdis-side records of real files)
+      e3b == IF "labels2" \in DOMAIN R /\ ToSet(R.labels2) # labs THEN <<V("C04.findlabels_front_door", labs, ToSet(R.labels2))>> ELSE <<>>
       e4 == IF marks # (labs \cup exc) \cap Offsets
             THEN <<V("C04.is_jump_target", (labs \cup exc) \cap Offsets, marks)>> ELSE <<>>
       e5 == IF R.wf = 1 /\ ~(labs \subseteq (Offsets \cup {Len(Code)}))
             THEN <<V("C04.aligned", "targets are instruction starts", labs \ (Offsets \cup {Len(Code)}))>> ELSE <<>>
-  IN e1 \o e2 \o e3 \o e4 \o e5
+  IN e1 \o e2 \o e3 \o e3b \o e4 \o e5
 
 TNext ==
   /\ tid <= Len(Traces)
